@@ -411,6 +411,44 @@ pub fn c10(opts: &Opts, out: &mut Out) {
 }
 
 /// adaptive cancellation attack on the batch weights
+/// a basis of the kernel of the matrix `rows` (each of length `ncols`) over the scalar field
+pub fn kernel_basis(rows: Vec<Vec<Scalar>>, ncols: usize) -> Vec<Vec<Scalar>> {
+    let mut mtx = rows;
+    let mut pivots: Vec<usize> = vec![];
+    let mut rix = 0usize;
+    for c in 0..ncols {
+        if let Some(pr_) = (rix..mtx.len()).find(|r_| mtx[*r_][c] != Scalar::ZERO) {
+            mtx.swap(rix, pr_);
+            let inv = mtx[rix][c].invert();
+            for x in mtx[rix].iter_mut() {
+                *x *= inv;
+            }
+            for r_ in 0..mtx.len() {
+                if r_ != rix && mtx[r_][c] != Scalar::ZERO {
+                    let f = mtx[r_][c];
+                    let prow = mtx[rix].clone();
+                    for (x, y) in mtx[r_].iter_mut().zip(prow.iter()) {
+                        *x -= f * y;
+                    }
+                }
+            }
+            pivots.push(c);
+            rix += 1;
+        }
+    }
+    (0..ncols)
+        .filter(|c| !pivots.contains(c))
+        .map(|fc| {
+            let mut v = vec![Scalar::ZERO; ncols];
+            v[fc] = Scalar::ONE;
+            for (ri, c) in pivots.iter().enumerate() {
+                v[*c] = -mtx[ri][fc];
+            }
+            v
+        })
+        .collect()
+}
+
 pub fn c08(opts: &Opts, out: &mut Out) {
     let mut rng = chacha(opts.seed, 8);
     let mut classes = std::collections::BTreeSet::new();
@@ -690,6 +728,63 @@ pub fn c08(opts: &Opts, out: &mut Out) {
         }
         classes.insert((n, 2, t, mode, 200));
     }
+    // cancellation over MORE than two members. The factors of all members are read in one run (each member's B is
+    // moved by a basis element of its own, so the residual's coordinate there is minus that member's factor), for
+    // several runs whose responses differ. Factors that depend on the batch through fewer independent quantities than
+    // there are members (a progression w_i = a + i*b, a repetition with a short period, ...) leave a fixed vector E
+    // with sum_i w_i E_i = 0 on every run: defects delta*E_i then cancel whatever the responses are. Independent
+    // draws (and powers of one draw) span the whole space and the block finds nothing to try.
+    for (n, k, t, mode) in [(2usize, 3usize, 1usize, 0usize), (2, 4, 2, 1), (2, 6, 1, 0), (4, 5, 3, 0)] {
+        let insts: Vec<Inst> = (0..k).map(|i| fmrun::random_inst(n, 1 << (i % 2), 2, t, i + 4, mode == 1, &mut rng)).collect();
+        let proofs: Vec<Proof> = insts.iter().map(|i| i.prove(&mut rng).unwrap()).collect();
+        let stmts: Vec<Stmt> = insts.iter().map(|i| i.statement()).collect();
+        let pr = fmrun::params(n, 2, t);
+        let ids = fmx::gen_ids(&pr, n);
+        let marks: Vec<FP> = (0..k).map(|_| { let mut b = [0u8; 64]; rng.fill_bytes(&mut b); <FP as tari_bulletproofs_plus::traits::FromUniformBytes>::from_uniform_bytes(&b) }).collect();
+        let mark_ids: Vec<u32> = marks.iter().map(|m| m.single_id().unwrap()).collect();
+        let whole_flag = std::cell::Cell::new(true);
+        let run = |d1off: &Vec<Scalar>, marked: bool| -> (bool, FP) {
+            let ps: Vec<Proof> = (0..k).map(|i| { let mut parts = fmx::parts(&proofs[i]); parts.d1[0] += d1off[i]; if marked { parts.b = &parts.b + &marks[i]; } parts.to_proof().unwrap() }).collect();
+            let mut ts: Vec<_> = insts.iter().map(|i| i.transcript()).collect();
+            fm::tap_start();
+            let r = Proof::verify_batch(&mut ts, &stmts, &ps, if mode == 0 { VerifyAction::VerifyOnly } else { VerifyAction::RecoverAndVerify });
+            if !fm::tap_is_whole_check() {
+                whole_flag.set(false);
+            }
+            (r.is_ok(), fm::tap_take().last().cloned().unwrap_or_default())
+        };
+        let mut rows: Vec<Vec<Scalar>> = vec![];
+        for _ in 0..k + 3 {
+            let offs: Vec<Scalar> = (0..k).map(|_| Scalar::random(&mut rng)).collect();
+            let (_, res) = run(&offs, true);
+            rows.push(mark_ids.iter().map(|id| -res.coord(*id)).collect());
+        }
+        if !whole_flag.get() {
+            continue;
+        }
+        let kern = kernel_basis(rows, k);
+        out.stat(&format!("factor_vectors_common_kernel_dim_n{}_k{}_t{}", n, k, t), kern.len());
+        for (ei, e) in kern.iter().enumerate().take(3) {
+            let delta = Scalar::from(11u8);
+            let offs: Vec<Scalar> = e.iter().map(|x| x * delta).collect();
+            let key = format!("common kernel of the factor vectors n={} k={} t={} mode={} vector {} = {:?}", n, k, t, mode, ei, e.iter().map(hs).collect::<Vec<_>>());
+            // each defective member on its own is refused ...
+            let mut singles_refused = true;
+            for i in 0..k {
+                if offs[i] != Scalar::ZERO {
+                    let mut o = vec![Scalar::ZERO; k];
+                    o[i] = offs[i];
+                    singles_refused &= !run(&o, false).0;
+                }
+            }
+            out.oracle("C08:single-defect-rejected", singles_refused, &key, "a batch with one perturbed member was accepted");
+            // ... and so must be the batch in which all of them are defective at once
+            let (okc, _) = run(&offs, false);
+            out.oracle("C08:cancelling-defects-rejected", !okc, &key, &format!("batch whose members carry the defects d1[0] += 11 * E_i, with E a fixed vector annihilating the factor vectors of {} earlier runs, ACCEPTED", k + 3));
+        }
+        let _ = &ids;
+        classes.insert((n, k, t, mode, 300));
+    }
     // batches with *repeated* members: the same (statement, proof, transcript) triple several times. Defects are
     // applied to every copy of a group alike; a weight derivation in which equal members cancel (for instance an XOR
     // or a sum of per-member digests) would make the weights of such a batch computable in advance.
@@ -751,5 +846,5 @@ pub fn c08(opts: &Opts, out: &mut Out) {
         }
     }
     out.stat("distinct_classes", classes.len());
-    out.case("batches of k valid proofs; for every ordered pair (i,j) and blinding coordinate: run A/B perturb d1 of one member to read its factor from the residual, run C applies equal-and-opposite defects computed from those factors; the same with repeated members (groups of equal triples perturbed alike)".into());
+    out.case("batches of k valid proofs; for every ordered pair (i,j) and blinding coordinate: run A/B perturb d1 of one member to read its factor from the residual, run C applies equal-and-opposite defects computed from those factors; the same with repeated members (groups of equal triples perturbed alike); batches of 3..6 members: factor vectors of k+3 runs read from per-member marks on B, their common kernel, and the batch of defects along it".into());
 }
